@@ -71,6 +71,8 @@ def cases(tier, seed):
             sp["pad_before"] = min(sp["pad_before"], 3)
             sp["pad_after"] = min(sp["pad_after"], 3)
         c = {"spec": sp}
+        if i % 4 == 3:
+            c["cross"] = True
         if i % 4 == 1 and sp["weather"]["kind"] == "synth":
             c["later"] = int(gen.pick(rng, [1, 2]))
             sp["pad_after"] = 366 * c["later"] + 5
@@ -124,8 +126,30 @@ def run_case(case):
     cov = acc.cov
     common.use_repo()
     kw = S.build(spec)
+    fresh_digest = None
+    if case.get("cross"):
+        # the objects have been used before, in a model with another groundwater setting: they
+        # must still mean what fresh ones mean (reference: the same configuration, fresh objects)
+        from aquacrop import AquaCropModel, GroundWater
+        ref0 = sim.run(spec, opts=dict(ledger=False, irr=False))
+        if ref0.status == "ok":
+            fresh_digest = sim.tables_digest(ref0)
+            kw_other = dict(kw)
+            if "groundwater" in kw_other:
+                kw_other.pop("groundwater")
+            else:
+                kw_other["groundwater"] = GroundWater(water_table="Y", method="Constant", dates=[spec["start"]], values=[1.2])
+            try:
+                with np.errstate(all="ignore"):
+                    AquaCropModel(**kw_other).run_model(num_steps=40)
+                cov["objects_used_before_in_another_setting"] += 1
+            except Exception:  # noqa: BLE001
+                fresh_digest = None
     before = {k: snap(kw[k]) for k in USER_KEYS if k in kw}
     first = sim.run(spec, kw=kw, opts=dict(ledger=False, irr=False))
+    if fresh_digest is not None and first.status == "ok" and sim.tables_digest(first) != fresh_digest:
+        acc.add("used-objects-differ-from-fresh", "a model built from objects that were used before by a model with another "
+                "groundwater setting differs from the same model built from fresh objects", dict(), dict(co2_option="other"))
     if first.status != "ok":
         return base.finish(spec, first, acc, False, instruments=("step",))
     d0 = sim.tables_digest(first)
